@@ -166,6 +166,30 @@ CHECKS.update({
         design_ref="5 (C11), 3.2", note=FIT_NOTE, technique=FIT_TECH),
 })
 
+CHECKS["C16"] = dict(
+    engine="Container", category="fault_enumeration",
+    text=("Container.tla models a save as the sequence of h5py write steps "
+          "RECORDED from real saves (41 for a new entry) with a crash "
+          "between any two; TLC checks on every reachable state (3 curves of "
+          "2 files, 2 fits, 2 users, <= 3 saves) that committed entries stay "
+          "loadable, keep fit and members, others are untouched, refused "
+          "saves change nothing. Conformance: histories of <= 4 real "
+          "save_hdf5 calls with an OSError injected at EVERY write call "
+          "position (and all fault-free histories of length <= 3 over new / "
+          "same again / other user / different fit / nearly equal fit / "
+          "other file) are executed on real .h5 files; after every save the "
+          "file is dumped and TLC checks that it equals the state obtained "
+          "by applying exactly s micro-steps, that load_hdf5 / RateManager / "
+          "hdf5_rated return the design's Load set, that other entries are "
+          "byte-identical, and that loaded curves round-trip (columns "
+          "bit-identical, settings/parameters equal, user fields, "
+          "features)."),
+    design_ref="5 (C16), 3.3",
+    note=TB + "Failure model: Python-level exception at a write call.",
+    technique=("TLA+ crash-point protocol (Container.tla) model-checked by "
+               "TLC; fault injection at every recorded write call; file "
+               "dumps validated by TLC (ContainerTrace.tla)"))
+
 NOT_APPLICABLE = {
     "C01": ("Recovery of ground-truth parameters to optimiser precision is "
             "numerical convergence of lmfit/MINPACK on real-valued data; it "
